@@ -87,6 +87,42 @@ fn real_main() -> i32 {
             driver::replay(&all_props(), &args[2], quiet)
         }
         "decode-worker" => props::c16::worker_main(),
+        "find-long-index" => {
+            // offline search (not part of any check): a revocation secret Scalar::from(k) whose
+            // SHA3-256(secret || index) is a non-canonical scalar for every index below <min>
+            use sha3::{Digest, Sha3_256};
+            let min: u8 = args.get(2).and_then(|x| x.parse().ok()).unwrap_or(8);
+            let threads: u64 = 16;
+            let found = std::sync::Arc::new(std::sync::atomic::AtomicU64::new(0));
+            let hs: Vec<_> = (0..threads)
+                .map(|t| {
+                    let found = found.clone();
+                    std::thread::spawn(move || {
+                        let mut k = 1 + t;
+                        while found.load(std::sync::atomic::Ordering::Relaxed) == 0 {
+                            let secret = bls12_381::Scalar::from(k).to_bytes();
+                            let mut idx = 0u8;
+                            loop {
+                                let d = Sha3_256::new().chain(secret).chain([idx]).finalize();
+                                if refc::sc_opt(d.as_ref()).is_some() || idx == 255 {
+                                    break;
+                                }
+                                idx += 1;
+                            }
+                            if idx >= min {
+                                found.store(k, std::sync::atomic::Ordering::Relaxed);
+                                println!("k={} first_canonical_index={}", k, idx);
+                            }
+                            k += threads;
+                        }
+                    })
+                })
+                .collect();
+            for h in hs {
+                let _ = h.join();
+            }
+            0
+        }
         "harvest" => {
             // debugging aid: list the harvested samples (index, type, bytes, atoms)
             let seed: u64 = args.get(2).and_then(|s| s.parse().ok()).unwrap_or(1);
